@@ -42,6 +42,15 @@ def _site_task(idx):
         res["unreachable"] = True
         return res
     custom = [c for c in CUSTOM[e["type"]["name"]] if not any(json_eq(c, d) for d in declared)]
+    if e["type"]["name"] == "string":
+        # custom values that are the *names* of declared values (member names of the generated Enum), and declared values
+        # in another case: a look-up by name instead of by value would silently rewrite them
+        extra = []
+        for v in e["values"][:12]:
+            for c in (v["name"], v["name"].upper(), str(v["value"]).upper(), str(v["value"]).capitalize()):
+                if c not in extra and not any(json_eq(c, d) for d in declared):
+                    extra.append(c)
+        custom += [c for c in extra if c not in custom][:16]
     accept_vals = [("declared", v) for v in declared] + ([("custom", v) for v in custom] if is_open else [])
     reject_vals = [] if is_open else [("outside", v) for v in outside_enum(mm, ename)]
     for rname, rt, rpath in roots:
